@@ -107,7 +107,7 @@ Fixpoint settle (skip : bool) (fuel : nat) (K : cfg) : rtree :=
       | SAct p => if skip then settle skip f rest else RAct (Some K) p (settle skip f rest)
       | SAppC t p => if skip then settle skip f rest
                      else RTest (Some K) t (raise rest OutOfSpace (settle skip f)) (RAct None p (settle skip f rest))
-      | SRet r => RSRet K r rest
+      | SRet r => if skip then settle skip f rest else RSRet K r rest   (* a pending finish / yield is an action too *)
       | SBreak l => match break_to K l with Some K2 => settle skip f K2 | None => RFuel end
       | SLoop l body => settle skip f (FSeq body :: FLoop l body :: rest)
       | STry body nm os h => settle skip f (FSeq body :: FTry nm os h :: rest)
